@@ -119,6 +119,11 @@ func (c *Compiler) validateUsesBelow(
 		if err := c.validateGrouping(m, ug, group_map); err != nil {
 			return err
 		}
+
+		// The augments written under the uses are expanded with it
+		if err := c.validateUsesBelow(m, g, u, group_map); err != nil {
+			return err
+		}
 	}
 
 	return nil
